@@ -112,11 +112,32 @@ CLAIMED = {
 NOT_YET = "check not built yet (work in progress; planned in DESIGN.md section 3)"
 NA = {}
 
+
+# appended to the technique text of a property (additions of later sessions)
+TECH_ADD = {
+ "C01": "; one case in four edits the message after building (UnsetAll*/SetAttachments/SetEmbeds with permuted or shortened lists, Part.Delete/SetContentType/SetCharset/SetContent/SetWriteFunc, SetBoundary) with the model following, one in four renders the same Msg a second time; RFC 2231 extended file-name parameters are decoded and judged like the plain ones",
+ "C02": "; the deprecated SetHeader/SetHeaderPreformatted aliases; RFC 2231 extended parameters judged like the plain ones",
+ "C03": "; file-system sources whose Read fails after a successful Open (a directory in place of the file, a caller's fs.FS reporting an error mid-way)",
+ "C05": "; invisible and space runes (U+00A0, U+3000, U+200B, U+FEFF) in quoted local parts",
+ "C06": "; blind copies for the mailbox of a visible recipient (also in another capitalisation)",
+ "C07": "; authentication replaced through SetSMTPAuth/SetSMTPAuthCustom after a password-revealing one; a second DialWithContext without closing the first connection, which is judged under the tightened policy from that moment on",
+ "C08": "; the signer configured again between two renders (other key type, intermediate added/dropped, same pair)",
+ "C10": "; library-generated extra fields (importance, bulk, organisation, MDN, custom X- headers) must survive the round trip without being multiplied",
+ "C11": "; the caller comes back to the buffers/readers it attached between two renders",
+ "C12": "; destinations that also implement Flush/WriteString/ReadFrom; file-system sources failing in Read",
+ "C14": "; second connections that resume the TLS session of the first (ClientSessionCache), incl. the PLUS variants",
+ "C15": "; server-final with the RFC 5802 server-error attribute instead of a signature",
+ "C16": "; logging configured through the Client setters, auth-data logging switched off again; SCRAM passwords the profile refuses (needles: alphanumeric stretches, robust against %q/JSON escaping)",
+ "C18": "; long blank-free words with commas/semicolons/parentheses",
+ "C20": "; errors.Is against a named step and SendError.MessageID",
+}
+
 checks = []
 for p in props:
     pid = p["id"]
     if pid in CLAIMED:
         cat, tech, text, note, ref = CLAIMED[pid]
+        tech = tech + TECH_ADD.get(pid, "")
         checks.append({
             "property_id": pid,
             "quick_cmd": "./check %s --tier quick" % pid,
